@@ -54,6 +54,16 @@ pub struct Work {
     /// into NaN payloads; a NaN *value* must never be mistaken for one);
     /// `(bits, as a constant instead of a bound variable)`
     pub nan_field: Option<(u32, bool)>,
+    /// 3-D only, *exact grid* workload (identity view, power-of-two sides, so
+    /// that every voxel position is computed exactly by any arithmetic path):
+    /// `(axis, voxel index, variant)` adds a term to the CSG shape whose value
+    /// is exactly `+0.0` (variant 0) or `-0.0` (1) on the voxel layer
+    /// `axis == index`, positive beyond and negative before it, or (2) a NaN
+    /// with the sign bit set for every voxel before the layer, or (3, 4) a
+    /// NaN everywhere (positive, negative).  Zero and NaN are not negative:
+    /// the statement's "highest voxel whose value is negative" is then decided
+    /// without a rounding band for those voxels.
+    pub exact_grid: Option<(usize, u32, u32)>,
 }
 
 impl Work {
@@ -483,10 +493,70 @@ pub fn gen_work(ch: &mut Chooser, kind: Kind, tier: Tier) -> Work {
     } else {
         None
     };
+    let mut exact_grid = None;
+    let (mut w, mut h, mut d, mut tiles, mut m4) = (w, h, d, tiles, m4);
+    if kind == Kind::D3 && !random_expr && model_drawn.is_none() && ch.odds("exact_grid", 1, 25) {
+        let side = |ch: &mut Chooser, s: &'static str| *ch.pick(s, &[4u32, 8, 16, 32, 16, 8]);
+        w = side(ch, "exact_w");
+        h = side(ch, "exact_h");
+        d = side(ch, "exact_d");
+        m4 = Matrix4::identity();
+        tiles = if ch.odds("tiles_default", 1, 8) {
+            None
+        } else {
+            Some(ch.pick("tiles", TILES_3D).to_vec())
+        };
+        let axis = ch.choose("exact_axis", 3) as usize;
+        let len = [w, h, d][axis];
+        let idx = ch.choose("exact_index", len);
+        let variant = ch.choose("exact_variant", 5);
+        exact_grid = Some((axis, idx, variant));
+        // the term is part of the shape's expression, so that the harness's
+        // own evaluators (gradient reference, tie margins) see it too
+        use crate::gen_::{Bin, Ex, Un};
+        let size = VoxelSize::new(w, h, d);
+        let mat = m4 * size.screen_to_world();
+        let k = idx as f32;
+        let c = mat.transform_point(&Point3::new(k, k, k))[axis];
+        let dag = &mut sg.dag;
+        let a = dag.push([Ex::X, Ex::Y, Ex::Z][axis]);
+        let cn = dag.push(Ex::C(c));
+        sg.root = match variant {
+            0 => {
+                // +0.0 on the layer, positive beyond, negative before
+                let t = dag.push(Ex::B(Bin::Sub, a, cn));
+                dag.push(Ex::B(Bin::Max, sg.root, t))
+            }
+            1 => {
+                // -0.0 on the layer
+                let t = dag.push(Ex::B(Bin::Sub, cn, a));
+                let t = dag.push(Ex::U(Un::Neg, t));
+                dag.push(Ex::B(Bin::Max, sg.root, t))
+            }
+            2 => {
+                // 0 * sqrt(axis - c): NaN (sign bit set on x86-64) before the
+                // layer, 0 on it and beyond
+                let t = dag.push(Ex::B(Bin::Sub, a, cn));
+                let t = dag.push(Ex::U(Un::Sqrt, t));
+                let z = dag.push(Ex::C(0.0));
+                let t = dag.push(Ex::B(Bin::Mul, t, z));
+                dag.push(Ex::B(Bin::Add, sg.root, t))
+            }
+            v => {
+                // a NaN everywhere, either sign, as a bound variable
+                let n = f32::from_bits(if v == 3 { 0x7fc0_0000 } else { 0xffc0_0000 });
+                let t = dag.push(Ex::V(sg.nvars));
+                sg.nvars += 1;
+                sg.var_values.push(n);
+                dag.push(Ex::B(Bin::Add, sg.root, t))
+            }
+        };
+    }
     Work {
         kind,
         sg,
         nan_field,
+        exact_grid,
         backend,
         w,
         h,
@@ -1285,14 +1355,20 @@ pub fn run_c07(st: &Shared, tier: Tier) -> RunReport {
         nan: bool,
     }
     let mut cols = Vec::with_capacity(w * h);
+    let mut exact_nonneg = 0u64;
     for j in 0..h {
         for i in 0..w {
             let mut depth = 0u32;
             let mut margin = f32::INFINITY;
             let mut nan = false;
             let mut excluded = false;
+            let exact = work.exact_grid.is_some();
             for k in d..=top {
                 let v = value(i, j, k);
+                if exact && (v.is_nan() || v == 0.0) {
+                    // certainly not negative (see `Work::exact_grid`)
+                    continue;
+                }
                 if v.is_nan() || v < tau(v) {
                     excluded = true;
                     break;
@@ -1301,6 +1377,10 @@ pub fn run_c07(st: &Shared, tier: Tier) -> RunReport {
             if !excluded {
                 for k in (0..d).rev() {
                     let v = value(i, j, k);
+                    if exact && (v.is_nan() || v == 0.0) {
+                        exact_nonneg += 1;
+                        continue;
+                    }
                     if v.is_nan() {
                         nan = true;
                         break;
@@ -1321,6 +1401,10 @@ pub fn run_c07(st: &Shared, tier: Tier) -> RunReport {
         }
     }
 
+    if work.exact_grid.is_some() {
+        rep.count("op.exact_grid_workload", 1);
+        rep.count("oracle.exact_zero_or_nan_voxels_counted_as_not_negative", exact_nonneg);
+    }
     predecessor_call(st, &mut rep, &work);
     let nconf = 3;
     for c in 0..nconf {
